@@ -2,7 +2,7 @@
 # try_mutant.sh <patch.diff> <check-id> [extra check args...]
 # applies a seeded change to /repo, runs one check against it, and always restores /repo.
 set -u
-PATCH="$1"; shift
+PATCH="$(readlink -f "$1")"; shift
 ID="$1"; shift
 cd /repo || exit 2
 if [ -n "$(git status --porcelain)" ]; then echo "try_mutant: /repo is not clean"; exit 2; fi
